@@ -28,3 +28,4 @@ def run(ctx):
     step_diff(ctx, "vh-core", "loss", "loss", tier_n(ctx, 3000, 300000))
     step_diff(ctx, "vh-core", "rtt", "rtt", tier_n(ctx, 4000, 300000))
     step_diff(ctx, "vh-core", "pto", "pto", tier_n(ctx, 3000, 200000))
+    step_diff(ctx, "vh-core", "pcong", "pcong", tier_n(ctx, 3000, 200000))
